@@ -513,6 +513,57 @@ func iAtomicValueStore(in *Interp, fn *ssa.Function, a []Value) Value {
 	return nil
 }
 
+// atomic.Pointer[T]: struct{ _ [0]*T; _ noCopy; v unsafe.Pointer } - the model keeps a pointer value
+// in the last field.
+func atomicPointerField(in *Interp, a []Value) PtrV {
+	p := a[0].(PtrV)
+	if p.isNil() {
+		in.goPanicf("runtime error: invalid memory address or nil pointer dereference")
+	}
+	n := len(p.load().(*StructV).f)
+	return p.sub(n - 1)
+}
+
+func iAtomicPointerLoad(in *Interp, fn *ssa.Function, a []Value) Value {
+	in.yield()
+	f := atomicPointerField(in, a)
+	in.logAtomic(false, a[0].(PtrV))
+	if v, ok := f.load().(PtrV); ok {
+		return v
+	}
+	return PtrV{}
+}
+
+func iAtomicPointerStore(in *Interp, fn *ssa.Function, a []Value) Value {
+	in.yield()
+	f := atomicPointerField(in, a)
+	f.store(a[1].(PtrV))
+	in.logAtomic(true, a[0].(PtrV))
+	return nil
+}
+
+func iAtomicPointerSwap(in *Interp, fn *ssa.Function, a []Value) Value {
+	in.yield()
+	f := atomicPointerField(in, a)
+	old, _ := f.load().(PtrV)
+	f.store(a[1].(PtrV))
+	in.logAtomic(true, a[0].(PtrV))
+	return old
+}
+
+func iAtomicPointerCAS(in *Interp, fn *ssa.Function, a []Value) Value {
+	in.yield()
+	f := atomicPointerField(in, a)
+	cur, _ := f.load().(PtrV)
+	if in.branch(in.valueEq(cur, a[1].(PtrV))) {
+		f.store(a[2].(PtrV))
+		in.logAtomic(true, a[0].(PtrV))
+		return in.tt.tT
+	}
+	in.logAtomic(false, a[0].(PtrV))
+	return in.tt.tF
+}
+
 func iAtomicValueSwap(in *Interp, fn *ssa.Function, a []Value) Value {
 	old := iAtomicValueLoad(in, fn, a)
 	iAtomicValueStore(in, fn, a)
